@@ -309,7 +309,7 @@ Qed.
 (* ---- the `;;` tolerance *)
 Lemma semi_tol : forall ps v, Forall wf_param ps ->
   match List.concat (map print_param ps) ++ COLON :: v with
-  | c :: (d :: _) as r' => if (c =? SEMI) && (d =? SEMI) then r' else List.concat (map print_param ps) ++ COLON :: v
+  | c :: (d :: _) as r' => if (c =? SEMI) && ((d =? SEMI) || (d =? COLON)) then r' else List.concat (map print_param ps) ++ COLON :: v
   | _ => List.concat (map print_param ps) ++ COLON :: v
   end = List.concat (map print_param ps) ++ COLON :: v.
 Proof.
@@ -318,7 +318,8 @@ Proof.
   - inversion Hwf as [|? ? Hp _]; subst. destruct Hp as (Hkne & Hknc & _). cbn [fst] in *.
     rewrite print_params_cons. destruct k as [|c k]; [contradiction|].
     inversion Hknc as [|? ? Hc _]; subst. cbn [app].
-    rewrite (name_char_not_semi c Hc), andb_false_r. reflexivity.
+    assert (Hcol : (c =? COLON) = false) by (apply name_char_facts in Hc; unfold COLON; apply N.eqb_neq; lia).
+    rewrite (name_char_not_semi c Hc), Hcol. cbn [orb]. rewrite andb_false_r. reflexivity.
 Qed.
 
 Lemma parse_rest : forall grp nm ps v, Forall wf_param ps ->
